@@ -67,7 +67,20 @@ CLAIM = {
             'call log, runned_reps, stored statistics (unique per-call tokens) and files after the restart are '
             'compared with the model, once with exception unwinding and once on a directory snapshot taken at the '
             'crash (hard kill); independent oracles re-check the property from files and raw call logs.',
-    'note': 'Trusted beyond the common base: the hand model <-> code correspondence (a behaviour not reached by the '
+    'note': 'Power loss (one level below os.replace): Model/C07Power.lean gives every file a buffer, an OS content and a '
+            'durable content; atomic_protocol_power_safe / power_loss_is_a_crash_point prove that with the protocol '
+            '[open tmp, write, flush, fsync, close, rename] a power loss after ANY prefix of the trace leaves exactly '
+            'the results files a process kill at that point leaves (old complete or new complete, sound again), so '
+            'every crash theorem holds verbatim for power losses; no_flush / no_fsync / fsync_after_rename are proved '
+            'negative witnesses; the regenerated tie requires flush, fsync, close, rename in this order in the source. '
+            'On the real code flush / os.fsync / close / os.replace are instrumented events and the bytes made durable by '
+            'the last fsync of each file are tracked; a power loss at a crash point = the directory as the OS has it with '
+            'every file written by the run cut to its fsynced size (renames kept), then a fresh restart, compared with '
+            'the model\'s PDisk prediction and the oracles (quick: after every fsync/close/rename; thorough: after every '
+            'file event and torn write). What remains trusted there: the operating system honouring fsync (fsynced '
+            'bytes survive), rename being atomic and itself persistent (no directory fsync is modelled), truncation to '
+            'the fsynced size as the power-loss outcome (no reordered or garbage blocks). '
+            'Trusted beyond the common base: the hand model <-> code correspondence (a behaviour not reached by the '
             'generators is not tied); harness/gen/c07.py recognising the write steps in the AST; os.replace is '
             'atomic and durable, fsync ordering / page cache below it are outside the model (the snapshot hard kill '
             'shows the directory as the OS has it at that moment, not a power loss); pickle of a complete file '
@@ -340,15 +353,18 @@ class Hooks:
     event number `crash_after`, or inside the write that would be event `tear[0]` after a fraction
     `tear[1]` of its bytes; snapshots the directory at that moment (hard kill)"""
 
-    def __init__(self, root, crash_after=None, tear=None, snap=None, final=None):
+    def __init__(self, root, crash_after=None, tear=None, snap=None, final=None, psnap=None):
         self.root = os.path.realpath(root) + os.sep
         self.final = final
         self.crash_after = crash_after
         self.tear = tear
         self.snap = snap
+        self.psnap = psnap        # where to put what a POWER LOSS at the crash point leaves
         self.n = 0
         self.kinds = []
         self.fired = None
+        self.durable = {}         # real path -> number of bytes made durable by the last fsync of that file
+        self.fds = {}             # file descriptor -> FileProxy
 
     def inside(self, path):
         try:
@@ -364,9 +380,19 @@ class Hooks:
         self.fired = where
         if self.snap is not None:
             shutil.copytree(self.root, self.snap, dirs_exist_ok=True)
+        if self.psnap is not None:
+            # power loss: the directory as the operating system has it (renames persist), every file written
+            # by this run cut to the size its last fsync made durable
+            shutil.copytree(self.root, self.psnap, dirs_exist_ok=True)
+            for path, size in self.durable.items():
+                q = os.path.join(self.psnap, os.path.relpath(path, self.root))
+                if os.path.isfile(q) and os.path.getsize(q) > size:
+                    os.truncate(q, size)
         raise Crash()
 
     def event(self, kind):
+        if self.fired is not None:
+            return              # exception unwinding after the crash is not part of the run
         self.n += 1
         self.kinds.append(kind)
         if self.crash_after is not None and self.n == self.crash_after:
@@ -376,11 +402,36 @@ class Hooks:
 class FileProxy:
     """a file opened for writing inside the results directory"""
 
-    def __init__(self, f, hooks, kind):
+    def __init__(self, f, hooks, kind, path):
         self.__dict__['_f'] = f
         self.__dict__['_hooks'] = hooks
         self.__dict__['_kind'] = kind
         self.__dict__['_written'] = False
+        self.__dict__['_path'] = os.path.realpath(os.fspath(path))
+        self.__dict__['_renamed'] = False
+        self.__dict__['_closed'] = False
+        hooks.durable[self._path] = 0          # created / truncated: nothing of it is durable yet
+        try:
+            hooks.fds[f.fileno()] = self
+        except (OSError, ValueError):
+            pass
+
+    def flush(self):
+        r = self._f.flush()
+        if self._kind.endswith('tmpOpen'):
+            self._hooks.event(self._kind.replace('tmpOpen', 'tmpFlush'))
+        return r
+
+    def close(self):
+        if not self._closed:
+            self.__dict__['_closed'] = True
+            try:
+                self._hooks.fds.pop(self._f.fileno(), None)
+            except (OSError, ValueError):
+                pass
+            self._f.close()
+            if self._kind.endswith('tmpOpen'):
+                self._hooks.event(self._kind.replace('tmpOpen', 'tmpClose'))
 
     def write(self, data):
         h = self._hooks
@@ -400,7 +451,7 @@ class FileProxy:
         return self
 
     def __exit__(self, *a):
-        self._f.close()
+        self.close()
         return False
 
     def __getattr__(self, name):
@@ -423,6 +474,7 @@ class Instrument:
         self.real_open = builtins.open
         self.real_replace = os.replace
         self.real_remove = os.remove
+        self.real_fsync = os.fsync
         self.real_time = rmod.time
         hooks = self.hooks
         real_open = self.real_open
@@ -439,13 +491,42 @@ class Instrument:
                 except Crash:
                     f.close()
                     raise
-                return FileProxy(f, hooks, kind)
+                return FileProxy(f, hooks, kind, file)
             return f
 
         def my_replace(src, dst, *a, **k):
+            rs = os.path.realpath(os.fspath(src))
+            rd = os.path.realpath(os.fspath(dst))
             r = real_replace(src, dst, *a, **k)
             if hooks is not None and hooks.inside(dst):
+                # the rename persists; the content is durable as far as the renamed file was
+                hooks.durable[rd] = hooks.durable.pop(rs, 0)
+                for pr in hooks.fds.values():
+                    if pr._path == rs:
+                        pr.__dict__['_path'] = rd
+                        pr.__dict__['_renamed'] = True
                 hooks.event(('F' if hooks.is_final(dst) else '') + 'rename')
+            return r
+        real_fsync = self.real_fsync
+
+        def my_fsync(fd):
+            r = real_fsync(fd)
+            pr = hooks.fds.get(fd) if hooks is not None else None
+            if pr is None and hooks is not None:
+                # a descriptor opened some other way (os.open of the renamed file, ...)
+                try:
+                    path = os.path.realpath('/proc/self/fd/%d' % fd)
+                except OSError:
+                    path = None
+                if path in hooks.durable:
+                    hooks.durable[path] = os.fstat(fd).st_size
+                    hooks.event(('F' if hooks.is_final(path) else '') + 'syncMain')
+            if pr is not None:
+                hooks.durable[pr._path] = os.fstat(fd).st_size      # what the operating system has of it now
+                if pr._renamed:
+                    hooks.event(('F' if hooks.is_final(pr._path) else '') + 'syncMain')
+                elif pr._kind.endswith('tmpOpen'):
+                    hooks.event(pr._kind.replace('tmpOpen', 'tmpFsync'))
             return r
         real_remove = self.real_remove
 
@@ -460,6 +541,7 @@ class Instrument:
         builtins.open = my_open
         os.replace = my_replace
         os.remove = my_remove
+        os.fsync = my_fsync
         rmod.time = self.clock
         return self
 
@@ -467,6 +549,7 @@ class Instrument:
         builtins.open = self.real_open
         os.replace = self.real_replace
         os.remove = self.real_remove
+        os.fsync = self.real_fsync
         self.rmod.time = self.real_time
         return False
 
@@ -679,7 +762,7 @@ def trace_kinds(case, scratch):
         shutil.rmtree(root, ignore_errors=True)
 
 
-def crash_and_restart(case, m, tear, scratch, tab, hard=True, extras=False):
+def crash_and_restart(case, m, tear, scratch, tab, hard=True, extras=False, power=False):
     """run 1 with the crash (after event m, or torn inside the write that is event tear[0]); then run 2
     in the directory as the unwinding left it (soft) and in the snapshot taken at the crash (hard).
     `case['same_runner']`: the soft restart calls simulate() again on the SAME runner object.
@@ -689,24 +772,29 @@ def crash_and_restart(case, m, tear, scratch, tab, hard=True, extras=False):
     Returns {'soft': obs, 'hard': obs | None}; obs = {'crash': diskstr, 'facts', 'calls1', 'run2', 'disk', ...}"""
     root = tempfile.mkdtemp(prefix='c07_', dir=scratch)
     snap = root + '_snap' if hard and not case.get('same_runner') else None
+    psnap = root + '_psnap' if power and not case.get('same_runner') else None
     out = {}
     try:
-        h = Hooks(root, crash_after=m if tear is None else None, tear=tear, snap=snap, final=final_name(case))
+        h = Hooks(root, crash_after=m if tear is None else None, tear=tear, snap=snap, final=final_name(case),
+                  psnap=psnap)
         if m == 0 and tear is None:
             ob1 = {'log': [], 'status': 'crash', 'runner': None, 'clock': None}   # killed before anything happened
             if snap:
                 os.mkdir(snap)
+            if psnap:
+                os.mkdir(psnap)
             h.fired = 'start'
         else:
             ob1 = run_to_end(case, 1, root, tab, h)
         fired = h.fired
-        for kind in ('soft', 'hard'):
-            if kind == 'hard':
-                if snap is None or not os.path.isdir(snap):
-                    out['hard'] = None
+        for kind in ('soft', 'hard', 'power'):
+            if kind != 'soft':
+                src = snap if kind == 'hard' else psnap
+                if src is None or not os.path.isdir(src):
+                    out[kind] = None
                     continue
                 shutil.rmtree(root)
-                os.rename(snap, root)
+                os.rename(src, root)
             crash, facts = read_disk(case, root, tab)
             before = dir_digest(root) if extras and kind == 'soft' else None
             reuse = kind == 'soft' and case.get('same_runner') and ob1['runner'] is not None
@@ -717,7 +805,8 @@ def crash_and_restart(case, m, tear, scratch, tab, hard=True, extras=False):
                 ob2 = run_to_end(case, 2, root, tab)
             disk, facts2 = read_disk(case, root, tab)
             ob = {'crash': crash, 'facts': facts, 'calls1': len(ob1['log']), 'log1': ob1['log'],
-                  'status1': ob1['status'], 'fired': fired, 'run2': ob2, 'disk': disk, 'facts2': facts2}
+                  'status1': ob1['status'], 'fired': fired if kind != 'power' else 'power-loss:%s' % fired,
+                  'fired_raw': fired, 'run2': ob2, 'disk': disk, 'facts2': facts2}
             if extras and kind == 'soft':
                 ex = {}
                 # R3: the values handed to the runners are what they were
@@ -758,8 +847,9 @@ def crash_and_restart(case, m, tear, scratch, tab, hard=True, extras=False):
         return out
     finally:
         shutil.rmtree(root, ignore_errors=True)
-        if snap:
-            shutil.rmtree(snap, ignore_errors=True)
+        for x in (snap, psnap):
+            if x:
+                shutil.rmtree(x, ignore_errors=True)
 
 
 def impl_repr(ob):
@@ -770,6 +860,12 @@ def impl_repr(ob):
 
 
 def model_repr(d, soft):
+    """`soft`: True (exception), False (hard kill) or 'power' (power loss: the model's PDisk)"""
+    if soft == 'power':
+        if d['prun2'] != 'same':
+            d = dict(d, **dict(t.split('=', 1) for t in d['prun2'].split('~') if '=' in t))
+        return 'calls1=%s crash=%s st=%s log=%s reps=%s res=%s disk=%s' % (
+            d['calls1'], d['pcrash'], d['st'], d['log'], d['reps'], d['res'], d['disk'])
     # exception unwinding removes the temp file that was being written (Disk.sweep); a hard kill does not
     crash = d['crash'].replace('+t', '') if soft else d['crash']
     disk = d['disk'].replace('+t', '') if soft else d['disk']
@@ -802,7 +898,7 @@ def oracle_point(case, ob):
         if o != 's':
             ok1.setdefault(v, []).append((1 << pos, o))
     # the call that was being executed when the interruption came returned nothing
-    if fired == 'call' and ob['log1'] and ob['log1'][-1][2] != 's':
+    if ob.get('fired_raw', fired) == 'call' and ob['log1'] and ob['log1'][-1][2] != 's':
         v = ob['log1'][-1][0]
         ok1[v] = ok1[v][:-1]
     # --- saved_is_prefix_merge: a loadable file holds the first k successful repetitions of its variation
@@ -921,12 +1017,12 @@ def oracle_extras(case, ob):
     return out
 
 
-def _replay_point(case, m, tear, hard):
+def _replay_point(case, m, tear, hard, power=False):
     scratch = tempfile.mkdtemp(prefix='c07_replay_')
     try:
         r = crash_and_restart(case, m, tuple(tear) if tear else None, scratch, tag_table(case), hard=hard,
-                              extras=not hard)
-        ob = r['hard' if hard else 'soft']
+                              extras=not hard and not power, power=power)
+        ob = r['power' if power else ('hard' if hard else 'soft')]
         return (oracle_point(case, ob) + oracle_extras(case, ob)) if ob is not None else []
     finally:
         shutil.rmtree(scratch, ignore_errors=True)
@@ -934,7 +1030,7 @@ def _replay_point(case, m, tear, hard):
 
 def _mk(callname):
     def f(rec):
-        v = _replay_point(rec['case'], rec['m'], rec.get('tear'), rec.get('hard', False))
+        v = _replay_point(rec['case'], rec['m'], rec.get('tear'), rec.get('hard', False), rec.get('power', False))
         for c, cls, d in v:
             if c == callname:
                 return cls, d
@@ -946,7 +1042,8 @@ ORACLES = {c: _mk(c) for c in ('SimulationRunner.simulate', 'SimulationResultsSa
 
 
 def replay(ctx, rep):
-    v = _replay_point(rep['case']['case'], rep['case']['m'], rep['case'].get('tear'), rep['case'].get('hard', False))
+    v = _replay_point(rep['case']['case'], rep['case']['m'], rep['case'].get('tear'), rep['case'].get('hard', False),
+                      rep['case'].get('power', False))
     return any(c == rep['call'] and cls == rep['class'] for c, cls, d in v)
 
 
@@ -1223,15 +1320,23 @@ def run_case(ctx, case, pts=None, tears=(0.0, 0.5, 1.0), hard=True, name='crash-
                     jobs.append((m - 1, (m, frac)))
     for m, tear in jobs:
         extras = tear is None and (m % 3 == 0 or m == len(kinds))
-        r = crash_and_restart(case, m, tear, ctx.scratch, tab, hard=hard, extras=extras)
-        for kind in ('soft', 'hard'):
+        evk = (kinds[m - 1] if 1 <= m <= len(kinds) else 'start') if tear is None else 'tear'
+        # power loss: the files change only at file events; quick samples the boundaries that matter most
+        if ctx.tier == 'quick':
+            power = evk.endswith(('tmpFsync', 'tmpClose', 'rename', 'syncMain'))
+        else:
+            power = evk not in ('call', 'start')
+        r = crash_and_restart(case, m, tear, ctx.scratch, tab, hard=hard, extras=extras, power=power)
+        for kind in ('soft', 'hard', 'power'):
             ob = r.get(kind)
             if ob is None:
                 continue
-            rec = {'case': case, 'm': m, 'tear': list(tear) if tear else None, 'hard': kind == 'hard'}
+            rec = {'case': case, 'm': m, 'tear': list(tear) if tear else None, 'hard': kind == 'hard',
+                   'power': kind == 'power'}
             impl = impl_repr(ob)
-            model = model_repr(mpts[m], kind == 'soft')
-            evk = (kinds[m - 1] if 1 <= m <= len(kinds) else 'start') if tear is None else 'tear'
+            model = model_repr(mpts[m], True if kind == 'soft' else (False if kind == 'hard' else 'power'))
+            if kind == 'power':
+                ctx.branch('power-loss:' + evk.lstrip('F'))
             ctx.corr(name, rec, impl, model, nontrivial=True,
                      key=ckey + (evk, kind, ob['run2']['status'], m if case['rm1'] < 400 else 0))
             ctx.branch('crash:' + ('tear' if tear else evk))
@@ -1354,7 +1459,9 @@ def check(ctx):
                 '(oracles only, no model)')
     quick = ctx.tier == 'quick'
     core.prove(ctx, MODULE, generated=GENERATED, drivers=[DRIVER], scratch=ctx.scratch)
-    ctx.required_branches = ['crash:call', 'crash:tmpOpen', 'crash:tmpWrite', 'crash:rename', 'crash:Frename',
+    ctx.required_branches = ['crash:call', 'crash:tmpOpen', 'crash:tmpWrite', 'crash:tmpFlush', 'crash:tmpFsync',
+                             'crash:tmpClose', 'crash:rename', 'crash:Frename', 'power', 'power-loss:tmpFsync',
+                             'power-loss:tmpClose', 'power-loss:rename',
                              'crash:tear', 'soft', 'hard', 'restart:ok', 'restart:ValueError', 'resumed-mid-run',
                              'temp-file-left-by-hard-kill', 'variant:same', 'variant:repmax', 'ext:.json',
                              'ext:none', 'oracle-ok', 'crash:remove',
@@ -1368,9 +1475,11 @@ def check(ctx):
                              'R7:further-restart-on-shared-parameters']
     try:
         rng = ctx.rng.fork('cases')
-        cases = corpus_cases() + robust_cases() + [gen_case(rng) for _ in range(30 if quick else 300)]
-        for c in cases:
+        fixed = corpus_cases() + robust_cases()
+        for c in fixed:
             run_case(ctx, c)
+        for c in [gen_case(rng) for _ in range(14 if quick else 200)]:
+            run_case(ctx, c, tears=(0.5,) if quick else (0.0, 0.5, 1.0))
         for c in corpus_cases()[:2 if quick else 5] + ([] if quick else [gen_case(rng) for _ in range(20)]):
             if diff_kind(c) == 'same' and not c.get('same_runner'):
                 run_case_oracles_only(ctx, dict(c, delete=True))
@@ -1407,13 +1516,15 @@ def search(ctx):
             if kinds[m - 1].endswith(('tmpWrite', 'write')):
                 jobs += [(m - 1, (m, f)) for f in (0.0, 0.5, 1.0)]
         for m, tear in jobs:
-            r = crash_and_restart(case, m, tear, ctx.scratch, tab, hard=True)
-            for kind in ('soft', 'hard'):
+            r = crash_and_restart(case, m, tear, ctx.scratch, tab, hard=True,
+                                  power=tear is not None or (m >= 1 and kinds[m - 1] != 'call'))
+            for kind in ('soft', 'hard', 'power'):
                 ob = r.get(kind)
                 if ob is None:
                     continue
                 ctx.count(('search', len(ctx.distinct)), False)
-                rec = {'case': case, 'm': m, 'tear': list(tear) if tear else None, 'hard': kind == 'hard'}
+                rec = {'case': case, 'm': m, 'tear': list(tear) if tear else None, 'hard': kind == 'hard',
+                       'power': kind == 'power'}
                 seen = set()
                 for call, cls, detail in oracle_point(case, ob):
                     if (call, cls) not in seen:
